@@ -67,3 +67,464 @@ LEAVES += [
     dict(name='ssShrink', file='data/noise.py', func='_covariance_diag', kind='assign', target='s_shrink',
          nth=0, count=1, params={'s': _A, 'scaling': _A}, ret=_A),
 ]
+
+
+# ---- round 3: statement-level skeletons derived by an own rewriter -------------------------------
+# The leaves above are single right-hand sides.  What they cannot see: the *guards* (`if d2 > 0`,
+# `if denom > 0`, `if dof is None`), the order of the statements around them (e.g. whether the
+# `* n / dof` rescale sits after or inside the guard), the summands inside `np.sum(...)`, the
+# method dispatch, the axes of the demeaning / tensor layout, and in-place writes to caller data.
+# For those this module derives, from the current source text (Python `ast`), tiny scalar Python
+# functions and writes them to harness/leaves/_C14_derived.py; py2lean translates those as usual.
+# Every derivation fails closed: an unexpected shape of the anchor yields a body calling
+# `__underivable__`, which py2lean reports as an untranslatable leaf (= broken obligation).
+#
+#   lw_tail        _covariance_eye from `b2 = min(d2, b2)` to `return` (guard + combine + rescale)
+#   lw_b2_term     summand of `b2 = np.sum(<.>) / n`
+#   lw_d2_term     summand of `d2 = np.sum(<.>)`
+#   ss_lambda      _covariance_diag: the `if denom > 0: ... else: lamb = 0.` statement
+#   ss_tail        _covariance_diag from that statement to `return`
+#   ss_den_term    summand of `denom = np.sum(<.>)`   (`s_mean[mask]` -> one off-diagonal entry)
+#   ss_mask        `mask = ~np.eye(., dtype=bool)` as a number: 1 - eye
+#   var_norm       `_variance`: argument of `np.diag(<.>)`
+#   dof_choice     _estimate_covariance: `if dof is None: dof = dof_nat` (two specialisations)
+#   dof_choice_unb cov_from_unbalanced: `if dof is None: dof = matrix.shape[0] - len(values)`
+#   dispatch       _estimate_covariance: method string -> estimator, as codes
+#                  (methods full, diag, shrinkage_eye, shrinkage_diag = 0..3;
+#                   estimators _covariance_full, _variance, _covariance_eye, _covariance_diag = 0..3)
+#   demean_axis_2d / demean_axis_3d / transpose_k / stack_axis / swap_a / swap_b
+#                  the axis constants of `_check_demean` and `Dataset.get_measurements_tensor`
+#   input_writes   number of statements in the anchored functions that store into (a view of) a
+#                  parameter: augmented assignment, subscript / attribute store, mutating method,
+#                  `out=`; the analysis is per function, every non-scalar parameter counts as
+#                  caller data (a Python-side static analysis; the Lean obligation is `= 0`).
+import ast as _ast
+import os as _os
+
+_SRC = _os.environ.get('RSA_REPO_SRC', '/repo/src/rsatoolbox')
+_HERE = _os.path.dirname(_os.path.abspath(__file__))
+DERIVED = _os.path.join(_HERE, '_C14_derived.py')
+METHOD_CODES = ['full', 'diag', 'shrinkage_eye', 'shrinkage_diag']
+ESTIMATOR_CODES = ['_covariance_full', '_variance', '_covariance_eye', '_covariance_diag']
+
+
+class Underivable(Exception):
+    pass
+
+
+def _tree(path):
+    return _ast.parse(open(_os.path.join(_SRC, path)).read())
+
+
+def _func(path, name, cls=None):
+    for node in _ast.walk(_tree(path)):
+        if cls is not None:
+            if isinstance(node, _ast.ClassDef) and node.name == cls:
+                for sub in node.body:
+                    if isinstance(sub, _ast.FunctionDef) and sub.name == name:
+                        return sub
+        elif isinstance(node, _ast.FunctionDef) and node.name == name:
+            return node
+    raise Underivable(f'{path}: function {name} not found')
+
+
+def _top_assign_index(fn, target, nth, count=None):
+    idx = [i for i, s in enumerate(fn.body) if isinstance(s, _ast.Assign) and len(s.targets) == 1
+           and isinstance(s.targets[0], _ast.Name) and s.targets[0].id == target]
+    if count is not None and len(idx) != count:
+        raise Underivable(f'expected {count} top-level assignments to {target}, found {len(idx)}')
+    if len(idx) <= nth:
+        raise Underivable(f'top-level assignment {nth} to {target} not found')
+    return idx[nth]
+
+
+class _Subst(_ast.NodeTransformer):
+    def __init__(self, subs):
+        self.subs = subs
+
+    def visit(self, node):
+        if isinstance(node, _ast.expr):
+            t = _ast.unparse(node)
+            if t in self.subs:
+                v = self.subs[t]
+                return _ast.Constant(value=v) if isinstance(v, int) else _ast.Name(id=v, ctx=_ast.Load())
+        return self.generic_visit(node)
+
+
+def _render(stmts, subs, extra_return=None):
+    mod = _ast.parse('\n'.join(_ast.unparse(s) for s in stmts))
+    mod = _ast.fix_missing_locations(_Subst(subs).visit(mod))
+    lines = _ast.unparse(mod).split('\n')
+    if extra_return:
+        lines.append(f'return {extra_return}')
+    return lines
+
+
+def _sum_arg(fn, target, nth, count):
+    """the argument X of the `np.sum(X)` on the right-hand side of an assignment"""
+    hits = [n for n in _ast.walk(fn) if isinstance(n, _ast.Assign) and len(n.targets) == 1
+            and isinstance(n.targets[0], _ast.Name) and n.targets[0].id == target]
+    hits.sort(key=lambda n: n.lineno)
+    if len(hits) != count:
+        raise Underivable(f'expected {count} assignments to {target}, found {len(hits)}')
+    sums = [c for c in _ast.walk(hits[nth].value) if isinstance(c, _ast.Call)
+            and _ast.unparse(c.func) == 'np.sum' and len(c.args) == 1 and not c.keywords]
+    if len(sums) != 1:
+        raise Underivable(f'expected one np.sum(.) in `{_ast.unparse(hits[nth])}`')
+    return sums[0].args[0]
+
+
+_EYE_TXT = 'np.eye(s.shape[0])'
+
+
+def _lw_tail():
+    fn = _func('data/noise.py', '_covariance_eye')
+    i = _top_assign_index(fn, 'b2', 1, 2)
+    tail = fn.body[i:]
+    if not isinstance(tail[-1], _ast.Return):
+        raise Underivable('_covariance_eye does not end in a return')
+    return _render(tail, {_EYE_TXT: 'eye', 'matrix.shape[0]': 'n'})
+
+
+def _ss_if(fn):
+    ifs = [i for i, s in enumerate(fn.body) if isinstance(s, _ast.If) and any(
+        isinstance(n, _ast.Name) and n.id == 'lamb' and isinstance(n.ctx, _ast.Store) for n in _ast.walk(s))]
+    if len(ifs) != 1:
+        raise Underivable(f'expected one top-level `if` assigning lamb in _covariance_diag, found {len(ifs)}')
+    return ifs[0]
+
+
+_SS_SUBS = {'np.sum(var_hat[mask])': 'num', _EYE_TXT: 'eye'}
+
+
+def _ss_lambda():
+    fn = _func('data/noise.py', '_covariance_diag')
+    i = _ss_if(fn)
+    if any(isinstance(s, _ast.Assign) and 'lamb' in [getattr(t, 'id', None) for t in s.targets]
+           for s in fn.body[:i] + fn.body[i + 1:]):
+        raise Underivable('lamb is also assigned outside the guard statement')
+    return _render([fn.body[i]], _SS_SUBS, extra_return='lamb')
+
+
+def _ss_tail():
+    fn = _func('data/noise.py', '_covariance_diag')
+    i = _ss_if(fn)
+    tail = fn.body[i:]
+    if not isinstance(tail[-1], _ast.Return):
+        raise Underivable('_covariance_diag does not end in a return')
+    return _render(tail, _SS_SUBS)
+
+
+def _expr_leaf(expr, subs):
+    return _render([_ast.Expr(value=expr)], subs)[0]
+
+
+def _ss_mask():
+    fn = _func('data/noise.py', '_covariance_diag')
+    hits = [s for s in fn.body if isinstance(s, _ast.Assign) and _ast.unparse(s.targets[0]) == 'mask']
+    if len(hits) != 1:
+        raise Underivable('expected one assignment to mask')
+    v = hits[0].value
+    if not (isinstance(v, _ast.UnaryOp) and isinstance(v.op, _ast.Invert)
+            and _ast.unparse(v.operand) == 'np.eye(s.shape[0], dtype=bool)'):
+        raise Underivable(f'mask is not ~np.eye(s.shape[0], dtype=bool): `{_ast.unparse(v)}`')
+    return '1 - eye'          # logical not of a 0/1 entry
+
+
+def _dof_choice(path, fname, subs):
+    fn = _func(path, fname)
+    ifs = [s for s in _ast.walk(fn) if isinstance(s, _ast.If) and _ast.unparse(s.test) == 'dof is None'
+           and len(s.body) == 1 and isinstance(s.body[0], _ast.Assign)
+           and _ast.unparse(s.body[0].targets[0]) == 'dof']
+    if len(ifs) != 1:
+        raise Underivable(f'expected one `if dof is None: dof = ...` in {fname}, found {len(ifs)}')
+    if ifs[0].orelse:
+        raise Underivable('the dof default has an else branch')
+    return _render([ifs[0]], subs, extra_return='dof')
+
+
+def _dispatch():
+    fn = _func('data/noise.py', '_estimate_covariance')
+    chains = [s for s in fn.body if isinstance(s, _ast.If) and _ast.unparse(s.test).startswith('method ==')]
+    if len(chains) != 1:
+        raise Underivable('method dispatch chain not found')
+    table = {}
+    node = chains[0]
+    while True:
+        t = node.test
+        if not (isinstance(t, _ast.Compare) and _ast.unparse(t.left) == 'method' and len(t.ops) == 1
+                and isinstance(t.ops[0], _ast.Eq) and isinstance(t.comparators[0], _ast.Constant)):
+            raise Underivable(f'dispatch test `{_ast.unparse(t)}`')
+        if len(node.body) != 1 or not isinstance(node.body[0], _ast.Assign) \
+                or _ast.unparse(node.body[0].targets[0]) != 'cov_mat' \
+                or not isinstance(node.body[0].value, _ast.Call):
+            raise Underivable('dispatch branch is not `cov_mat = f(matrix, dof)`')
+        call = node.body[0].value
+        if [_ast.unparse(a) for a in call.args] != ['matrix', 'dof'] or call.keywords:
+            raise Underivable(f'dispatch call arguments `{_ast.unparse(call)}`')
+        key = t.comparators[0].value
+        if key in table:
+            raise Underivable(f'method {key!r} tested twice')
+        table[key] = _ast.unparse(call.func)
+        if len(node.orelse) == 1 and isinstance(node.orelse[0], _ast.If):
+            node = node.orelse[0]
+        elif not node.orelse:
+            break
+        else:
+            raise Underivable('dispatch chain ends in an else branch')
+    if sorted(table) != sorted(METHOD_CODES):
+        raise Underivable(f'methods dispatched: {sorted(table)}')
+    lines = []
+    for i, mth in enumerate(METHOD_CODES):
+        if table[mth] not in ESTIMATOR_CODES:
+            raise Underivable(f'unknown estimator {table[mth]}')
+        lines.append(f'{"if" if i == 0 else "elif"} method == {i}:')
+        lines.append(f'    return {ESTIMATOR_CODES.index(table[mth])}')
+    lines.append('return 4')
+    return lines
+
+
+def _kw_int(call, name):
+    for k in call.keywords:
+        if k.arg == name and isinstance(k.value, _ast.Constant) and isinstance(k.value.value, int):
+            return k.value.value
+    raise Underivable(f'`{_ast.unparse(call)}` has no integer keyword {name}')
+
+
+def _demean_axis(ndim_branch):
+    fn = _func('data/noise.py', '_check_demean')
+    hits = [s for s in _ast.walk(fn) if isinstance(s, _ast.Assign) and _ast.unparse(s.targets[0]) == 'matrix'
+            and isinstance(s.value, _ast.BinOp) and isinstance(s.value.op, _ast.Sub)
+            and _ast.unparse(s.value.left) == 'matrix' and isinstance(s.value.right, _ast.Call)
+            and _ast.unparse(s.value.right.func) == 'np.mean']
+    hits.sort(key=lambda n: n.lineno)
+    if len(hits) != 2:
+        raise Underivable(f'expected two `matrix = matrix - np.mean(...)` in _check_demean, found {len(hits)}')
+    call = hits[ndim_branch].value.right
+    if _ast.unparse(call.args[0]) != 'matrix' or len(call.args) != 1:
+        raise Underivable(f'mean is not taken of matrix: `{_ast.unparse(call)}`')
+    return str(_kw_int(call, 'axis'))
+
+
+def _transpose_k(k):
+    fn = _func('data/noise.py', '_check_demean')
+    calls = [c for c in _ast.walk(fn) if isinstance(c, _ast.Call) and isinstance(c.func, _ast.Attribute)
+             and c.func.attr == 'transpose' and _ast.unparse(c.func.value) == 'matrix']
+    if len(calls) != 1 or len(calls[0].args) != 3 or not all(
+            isinstance(a, _ast.Constant) and isinstance(a.value, int) for a in calls[0].args):
+        raise Underivable('matrix.transpose(a, b, c) not found in _check_demean')
+    resh = [c for c in _ast.walk(fn) if isinstance(c, _ast.Call) and isinstance(c.func, _ast.Attribute)
+            and c.func.attr == 'reshape' and c.func.value is calls[0]]
+    want = ['matrix.shape[0] * matrix.shape[2]', 'matrix.shape[1]']
+    if len(resh) != 1 or [_ast.unparse(a) for a in resh[0].args] != want:
+        raise Underivable('the reshape after the transpose is not (shape[0] * shape[2], shape[1])')
+    return str(calls[0].args[k].value)
+
+
+def _tensor_const(which):
+    fn = _func('data/dataset.py', 'get_measurements_tensor', cls='Dataset')
+    if which == 'stack':
+        calls = [c for c in _ast.walk(fn) if isinstance(c, _ast.Call) and _ast.unparse(c.func) == 'np.stack']
+        if len(calls) != 1:
+            raise Underivable('np.stack not found in get_measurements_tensor')
+        return str(_kw_int(calls[0], 'axis'))
+    calls = [c for c in _ast.walk(fn) if isinstance(c, _ast.Call) and _ast.unparse(c.func) == 'np.swapaxes']
+    if len(calls) != 1 or len(calls[0].args) != 3 or not all(
+            isinstance(a, _ast.Constant) and isinstance(a.value, int) for a in calls[0].args[1:]):
+        raise Underivable('np.swapaxes(t, a, b) not found in get_measurements_tensor')
+    return str(calls[0].args[1 if which == 'a' else 2].value)
+
+
+# -- in-place writes to caller data ----------------------------------------------------------------
+_SCALAR_PARAMS = {'dof', 'method', 'obs_desc', 'by'}
+_VIEW_METHODS = {'transpose', 'reshape', 'swapaxes', 'view', 'ravel', 'squeeze', 'items', 'values', 'keys',
+                 'get', 'flat'}
+_VIEW_FUNCS = {'np.asarray', 'np.asanyarray', 'np.transpose', 'np.swapaxes', 'np.reshape', 'np.squeeze',
+               'np.ravel', 'np.atleast_1d', 'np.atleast_2d', 'np.atleast_3d', 'np.expand_dims',
+               'np.diagonal', 'np.broadcast_to', 'enumerate', 'zip', 'iter', 'reversed'}
+_MUTATORS = {'sort', 'fill', 'resize', 'put', 'itemset', 'setfield', 'partition', 'append', 'extend',
+             'insert', 'remove', 'pop', 'popitem', 'clear', 'update', 'setdefault', 'reverse'}
+_MUT_FUNCS = {'np.copyto', 'np.put', 'np.put_along_axis', 'np.putmask', 'np.place', 'np.fill_diagonal'}
+WRITE_SITES = []      # filled by the derivation, printed into the derived file for the reader
+
+
+def _is_alias(e, alias):
+    if isinstance(e, _ast.Name):
+        return e.id in alias
+    if isinstance(e, (_ast.Attribute, _ast.Subscript, _ast.Starred)):
+        return _is_alias(e.value, alias)
+    if isinstance(e, _ast.Call):
+        if isinstance(e.func, _ast.Attribute) and e.func.attr in _VIEW_METHODS and _is_alias(e.func.value, alias):
+            return True
+        if _ast.unparse(e.func) in _VIEW_FUNCS and any(_is_alias(a, alias) for a in e.args):
+            return True
+    if isinstance(e, (_ast.Tuple, _ast.List)):
+        return any(_is_alias(x, alias) for x in e.elts)
+    if isinstance(e, _ast.IfExp):
+        return _is_alias(e.body, alias) or _is_alias(e.orelse, alias)
+    return False
+
+
+def _names(t):
+    if isinstance(t, _ast.Name):
+        return [t.id]
+    if isinstance(t, (_ast.Tuple, _ast.List)):
+        return [n for e in t.elts for n in _names(e)]
+    return []
+
+
+def _writes_in(fn, where):
+    alias = {a.arg for a in fn.args.args + fn.args.kwonlyargs} - _SCALAR_PARAMS
+    for _ in range(6):           # flow-insensitive closure
+        before = len(alias)
+        for n in _ast.walk(fn):
+            if isinstance(n, _ast.Assign) and _is_alias(n.value, alias):
+                for t in n.targets:
+                    alias.update(_names(t))
+            if isinstance(n, (_ast.For, _ast.comprehension)) and _is_alias(n.iter, alias):
+                alias.update(_names(n.target))
+            if isinstance(n, _ast.NamedExpr) and _is_alias(n.value, alias):
+                alias.update(_names(n.target))
+        if len(alias) == before:
+            break
+    sites = []
+    for n in _ast.walk(fn):
+        if isinstance(n, _ast.AugAssign) and _is_alias(n.target, alias):
+            sites.append((n.lineno, _ast.unparse(n)))
+        if isinstance(n, _ast.Assign):
+            for t in n.targets:
+                for tt in ([t] if not isinstance(t, (_ast.Tuple, _ast.List)) else t.elts):
+                    if isinstance(tt, (_ast.Subscript, _ast.Attribute)) and _is_alias(tt.value, alias):
+                        sites.append((n.lineno, _ast.unparse(n)))
+        if isinstance(n, _ast.Delete):
+            for t in n.targets:
+                if isinstance(t, (_ast.Subscript, _ast.Attribute)) and _is_alias(t.value, alias):
+                    sites.append((n.lineno, _ast.unparse(n)))
+        if isinstance(n, _ast.Call):
+            if isinstance(n.func, _ast.Attribute) and n.func.attr in _MUTATORS and _is_alias(n.func.value, alias):
+                sites.append((n.lineno, _ast.unparse(n)))
+            if _ast.unparse(n.func) in _MUT_FUNCS and n.args and _is_alias(n.args[0], alias):
+                sites.append((n.lineno, _ast.unparse(n)))
+            for k in n.keywords:
+                if k.arg == 'out' and _is_alias(k.value, alias):
+                    sites.append((n.lineno, _ast.unparse(n)))
+    return [f'{where}:{ln}: {txt}' for ln, txt in sorted(set(sites))]
+
+
+_WRITE_SCOPE = [('data/noise.py', None, None),           # every function of the module
+                ('data/computations.py', 'average_dataset_by', None),
+                ('data/computations.py', 'average_dataset', None),
+                ('data/dataset.py', 'get_measurements_tensor', 'Dataset'),
+                ('util/data_utils.py', 'get_unique_inverse', None),
+                ('util/data_utils.py', 'get_unique_unsorted', None)]
+
+
+def _input_writes():
+    del WRITE_SITES[:]
+    n_fn = 0
+    for path, name, cls in _WRITE_SCOPE:
+        if name is None:
+            fns = [n for n in _tree(path).body if isinstance(n, _ast.FunctionDef)]
+        else:
+            fns = [_func(path, name, cls)]
+        for fn in fns:
+            n_fn += 1
+            WRITE_SITES.extend(_writes_in(fn, f'{path}:{fn.name}'))
+    if n_fn < 12:
+        raise Underivable(f'only {n_fn} functions found in the write scope')
+    return str(len(WRITE_SITES))
+
+
+def _derive():
+    out = ['# DERIVED by harness/leaves/C14.py from the source tree under check - do not edit', '']
+
+    def emit(name, params, body_fn):
+        try:
+            body = body_fn()
+            if isinstance(body, str):
+                body = [f'return {body}']
+        except Exception as exc:  # noqa: BLE001  (fail closed: any surprise = underivable)
+            body = ['return __underivable__(' + repr(str(exc)) + ')']
+        out.append(f'def {name}({", ".join(params)}):')
+        out.extend('    ' + l for l in body)
+        out.append('')
+
+    emit('lw_tail', ['s', 'd2', 'b2', 'm', 'eye', 'n', 'dof'], _lw_tail)
+    emit('lw_b2_term', ['s2_sum', 'n', 's'], lambda: _expr_leaf(
+        _sum_arg(_func('data/noise.py', '_covariance_eye'), 'b2', 0, 2), {'matrix.shape[0]': 'n'}))
+    emit('lw_d2_term', ['s', 'm', 'eye'], lambda: _expr_leaf(
+        _sum_arg(_func('data/noise.py', '_covariance_eye'), 'd2', 0, 1), {_EYE_TXT: 'eye'}))
+    emit('ss_lambda', ['num', 'denom'], _ss_lambda)
+    emit('ss_tail', ['num', 'denom', 's', 'eye', 'mask'], _ss_tail)
+    emit('ss_den_term', ['s_mean'], lambda: _expr_leaf(
+        _sum_arg(_func('data/noise.py', '_covariance_diag'), 'denom', 0, 1), {'s_mean[mask]': 's_mean'}))
+    emit('ss_mask', ['eye'], _ss_mask)
+    emit('var_norm', ['xtx', 'dof'], lambda: _expr_leaf(
+        _variance_arg(), {"np.einsum('ij, ij-> j', matrix, matrix)": 'xtx'}))
+    emit('dof_choice', ['dof', 'dof_nat'], lambda: _dof_choice('data/noise.py', '_estimate_covariance', {}))
+    emit('dof_choice_unb', ['dof', 'n', 'len_values'], lambda: _dof_choice(
+        'data/noise.py', 'cov_from_unbalanced', {'matrix.shape[0]': 'n', 'len(values)': 'len_values'}))
+    emit('dispatch', ['method'], _dispatch)
+    emit('demean_axis_2d', [], lambda: _demean_axis(0))
+    emit('demean_axis_3d', [], lambda: _demean_axis(1))
+    for k in range(3):
+        emit(f'transpose_{k}', [], lambda k=k: _transpose_k(k))
+    emit('stack_axis', [], lambda: _tensor_const('stack'))
+    emit('swap_a', [], lambda: _tensor_const('a'))
+    emit('swap_b', [], lambda: _tensor_const('b'))
+    emit('input_writes', [], _input_writes)
+    out.append('# stores into caller data found by the analysis (input_writes counts these):')
+    out.extend('#   ' + s for s in WRITE_SITES)
+    text = '\n'.join(out) + '\n'
+    if not (_os.path.exists(DERIVED) and open(DERIVED).read() == text):
+        with open(DERIVED + '.tmp', 'w') as f:
+            f.write(text)
+        _os.replace(DERIVED + '.tmp', DERIVED)
+
+
+def _variance_arg():
+    fn = _func('data/noise.py', '_variance')
+    rets = [s for s in fn.body if isinstance(s, _ast.Return)]
+    if len(rets) != 1 or not (isinstance(rets[0].value, _ast.Call)
+                              and _ast.unparse(rets[0].value.func) == 'np.diag'
+                              and len(rets[0].value.args) == 1 and not rets[0].value.keywords):
+        raise Underivable('_variance does not return np.diag(<.>)')
+    return rets[0].value.args[0]
+
+
+_derive()
+
+_N0 = {}
+LEAVES += [
+    dict(name='lwTail', file=DERIVED, func='lw_tail', kind='func',
+         params={'s': _A, 'd2': _A, 'b2': _A, 'm': _A, 'eye': _A, 'n': _A, 'dof': _A}, ret=_A),
+    dict(name='lwB2term', file=DERIVED, func='lw_b2_term', kind='func',
+         params={'s2_sum': _A, 'n': _A, 's': _A}, ret=_A),
+    dict(name='lwD2term', file=DERIVED, func='lw_d2_term', kind='func',
+         params={'s': _A, 'm': _A, 'eye': _A}, ret=_A),
+    dict(name='ssLambda', file=DERIVED, func='ss_lambda', kind='func',
+         params={'num': _A, 'denom': _A}, ret=_A),
+    dict(name='ssTail', file=DERIVED, func='ss_tail', kind='func',
+         params={'num': _A, 'denom': _A, 's': _A, 'eye': _A, 'mask': _A}, ret=_A),
+    dict(name='ssDenTerm', file=DERIVED, func='ss_den_term', kind='func', params={'s_mean': _A}, ret=_A),
+    dict(name='ssMask', file=DERIVED, func='ss_mask', kind='func', params={'eye': _A}, ret=_A),
+    dict(name='varNorm', file=DERIVED, func='var_norm', kind='func', params={'xtx': _A, 'dof': _A}, ret=_A),
+    dict(name='dofChoiceNone', file=DERIVED, func='dof_choice', kind='func',
+         params={'dof': _A, 'dof_nat': _A}, none=['dof'], ret=_A),
+    dict(name='dofChoiceSome', file=DERIVED, func='dof_choice', kind='func',
+         params={'dof': _A, 'dof_nat': _A}, ret=_A),
+    dict(name='dofUnbChoiceNone', file=DERIVED, func='dof_choice_unb', kind='func',
+         params={'dof': _A, 'n': 'Nat', 'len_values': 'Nat'}, none=['dof'], ret=_A),
+    dict(name='dofUnbChoiceSome', file=DERIVED, func='dof_choice_unb', kind='func',
+         params={'dof': _A, 'n': 'Nat', 'len_values': 'Nat'}, ret=_A),
+    dict(name='dispatch', file=DERIVED, func='dispatch', kind='func', params={'method': 'Nat'}, ret='Nat'),
+    dict(name='demeanAxis2d', file=DERIVED, func='demean_axis_2d', kind='func', params=_N0, ret='Nat'),
+    dict(name='demeanAxis3d', file=DERIVED, func='demean_axis_3d', kind='func', params=_N0, ret='Nat'),
+    dict(name='transpose0', file=DERIVED, func='transpose_0', kind='func', params=_N0, ret='Nat'),
+    dict(name='transpose1', file=DERIVED, func='transpose_1', kind='func', params=_N0, ret='Nat'),
+    dict(name='transpose2', file=DERIVED, func='transpose_2', kind='func', params=_N0, ret='Nat'),
+    dict(name='stackAxis', file=DERIVED, func='stack_axis', kind='func', params=_N0, ret='Nat'),
+    dict(name='swapA', file=DERIVED, func='swap_a', kind='func', params=_N0, ret='Nat'),
+    dict(name='swapB', file=DERIVED, func='swap_b', kind='func', params=_N0, ret='Nat'),
+    dict(name='inputWrites', file=DERIVED, func='input_writes', kind='func', params=_N0, ret='Nat'),
+]
